@@ -44,4 +44,15 @@ Definition insert_pts (b : bytes) (pts : N) : Res bytes :=
   let b3 := w8 (N.land (N.shiftr pts 7) 255) in
   let b4 := N.lor (w8 (N.shiftl (w8 (N.land pts 255)) 1)) 1 in
   Ok (upd (upd (upd (upd (upd b 0 b0) 1 b1) 2 b2) 3 b3) 4 b4).
+(* nested module: `Import Pts` does not bring these names into scope *)
+Module Consts.
+(* ---- exported constants of pts.go, in source order (coverage: notes/coverage.md) ---- *)
+Definition PTS_DTS_INDICATOR_BOTH : N := 3.
+Definition PTS_DTS_INDICATOR_ONLY_PTS : N := 2.
+Definition PTS_DTS_INDICATOR_NONE : N := 0.
+Definition PtsClockRate : N := 90000.
+Definition exported_consts : list N :=
+  [PTS_DTS_INDICATOR_BOTH; PTS_DTS_INDICATOR_ONLY_PTS; PTS_DTS_INDICATOR_NONE; MaxPtsValue; MaxPtsTicks; NegInf; PosInf; PtsClockRate; Upper; Lower].
+End Consts.
+
 End Pts.
